@@ -171,7 +171,7 @@ func checkC02(rep *Report, pool *DriverPool, c *RCase) {
 	}
 	rep.Count("accepted-by-stdlib")
 	o := RunR("flate", false, stream, nil, c.Src, c.Ctor, c.Prior, c.Reads, c.RSeed, 0)
-	rep.Digest(c.ID, o.digestParts()...)
+	rep.DigestR(c.ID, &o)
 	if o.Panic != "" || o.Hang {
 		rep.Violate("panic-or-hang", "", fmt.Sprintf("panic=%q hang=%v", o.Panic, o.Hang), c)
 		return
@@ -206,7 +206,7 @@ func checkC03(rep *Report, pool *DriverPool, c *RCase, knownValid bool) {
 	o := RunR("flate", false, stream, nil, c.Src, c.Ctor, c.Prior, c.Reads, c.RSeed, 0)
 	rep.Eval(fmt.Sprintf("%s|%d|%s|%s|%d", shape, len(stream), c.Ctor, c.Reads, c.Cut), c.sample())
 	rep.Count("ctor:" + c.Ctor)
-	rep.Digest(c.ID, o.digestParts()...)
+	rep.DigestR(c.ID, &o)
 	if o.Panic != "" {
 		rep.Violate("panic", "", o.Panic, c)
 		return
@@ -277,7 +277,7 @@ func checkC04(rep *Report, pool *DriverPool, c *RCase) {
 	rep.Count(fmt.Sprintf("buf:%d", c.Src.Buf))
 	rep.Count("reads:" + c.Reads)
 	rep.Count("base:" + base.Err)
-	rep.Digest(c.ID, o.Bytes, []byte(o.Err))
+	rep.DigestR(c.ID, &o, o.Bytes, []byte(o.Err))
 	if o.Panic != "" || o.Hang || base.Panic != "" || base.Hang {
 		rep.Violate("panic-or-hang", "", fmt.Sprintf("panic=%q/%q hang=%v/%v", o.Panic, base.Panic, o.Hang, base.Hang), c)
 		return
@@ -311,7 +311,7 @@ func checkC05(rep *Report, pool *DriverPool, c *RCase) {
 	rep.Eval(fmt.Sprintf("%s|%s|%d|%s|%s|%d|%d", c.API, shape, len(stream), c.Src.Kind, c.Ctor, c.Src.Buf, len(suffix)), c.sample())
 	rep.Count("src:" + c.Src.Kind)
 	rep.Count("api:" + c.API)
-	rep.Digest(c.ID, o.digestParts()...)
+	rep.DigestR(c.ID, &o)
 	if o.Panic != "" || o.Hang {
 		rep.Violate("panic-or-hang", "", o.Panic, c)
 		return
@@ -348,7 +348,7 @@ func checkC11(rep *Report, pool *DriverPool, c *RCase) {
 	rep.Count("api:" + c.API)
 	atEnd := c.Src.After >= len(stream) || c.Src.After < 0
 	rep.Count(fmt.Sprintf("at-end:%v", atEnd))
-	rep.Digest(c.ID, []byte(fmt.Sprint(len(o.Bytes) >= c.Expect)))
+	rep.DigestR(c.ID, &o, []byte(fmt.Sprint(len(o.Bytes) >= c.Expect)))
 	if o.Panic != "" || o.Hang {
 		rep.Violate("panic-or-hang", "", o.Panic, c)
 		return
@@ -394,7 +394,7 @@ func checkC13(rep *Report, pool *DriverPool, c *RCase) {
 	rep.Eval(fmt.Sprintf("%s|%s|%d|%s|%d|%d", c.API, shape, len(stream), c.Prior.Stream.Kind, c.Prior.Read, c.Prior.Cut), c.sample()+fmt.Sprintf(" prior=%s read=%d cut=%d", c.Prior.Stream.describe(), c.Prior.Read, c.Prior.Cut))
 	rep.Count("api:" + c.API)
 	rep.Count("fresh:" + fresh.Err + fresh.CtorErr)
-	rep.Digest(c.ID, re.digestParts()...)
+	rep.DigestR(c.ID, &re)
 	if re.Panic != "" || re.Hang || fresh.Panic != "" {
 		rep.Violate("panic-or-hang", "", fmt.Sprintf("reused: panic=%q hang=%v; fresh: panic=%q", re.Panic, re.Hang, fresh.Panic), c)
 		return
@@ -413,7 +413,7 @@ func checkC15(rep *Report, pool *DriverPool, c *RCase) {
 	rep.Eval(fmt.Sprintf("%s|%s|%d|%s|%d", c.API, shape, len(stream), c.Src.Term, c.Src.After), c.sample())
 	rep.Count("api:" + c.API)
 	rep.Count("term:" + c.Src.Term)
-	rep.Digest(c.ID, o.digestParts()...)
+	rep.DigestR(c.ID, &o)
 	if o.Panic != "" || o.Hang {
 		rep.Violate("panic-or-hang", "", o.Panic, c)
 		return
